@@ -1,5 +1,22 @@
-''' Import-only stub (configuration files are not loaded by the checks). '''
+''' Minimal stand-in for PyYAML: configuration documents handed to the real from_file() loaders by the checks are written
+as JSON, which is a subset of YAML 1.2, so json is a faithful loader for them.  Nothing else is supported. '''
+import json
 
 
-def safe_load(_fileobj):
-    raise NotImplementedError('vf shim: yaml is a stub')
+class YAMLError(Exception):
+    pass
+
+
+def safe_load(stream):
+    text = stream.read() if hasattr(stream, 'read') else stream
+    if isinstance(text, bytes):
+        text = text.decode('utf-8')
+    if not text.strip():
+        return None
+    try:
+        return json.loads(text)
+    except ValueError as err:
+        raise YAMLError('vf yaml shim reads the JSON subset only: %s' % err)
+
+
+load = safe_load
